@@ -63,10 +63,10 @@ func (op Operator) Format(out io.Writer) error {
 				if _, err := out.Write([]byte(" ")); err != nil {
 					return err
 				}
-				if natVal, ok := val.(pdf.Native); ok {
-					if err := pdf.Format(out, pdf.OptContentStream, natVal); err != nil {
-						return err
-					}
+				// a nil value is written as "null"; writing nothing would
+				// make the next key the value of this one
+				if err := pdf.Format(out, pdf.OptContentStream, val); err != nil {
+					return err
 				}
 				if _, err := out.Write([]byte("\n")); err != nil {
 					return err
